@@ -9,7 +9,7 @@ From Coq Require Import ZArith Reals Bool List Floats.SpecFloat.
 From Flocq Require Import Core.Zaux Core.Raux Core.Defs Core.Generic_fmt Core.FLT Core.Round_NE
   IEEE754.BinarySingleNaN.
 From RlibV Require Import C18.Model C18.Corr C18.Spec C18.Transport C18.ProofsConv C18.ProofsArith
-  C18.ProofsCmp C18.ProofsCmpR C18.ProofsSpecCheck.
+  C18.ProofsCmp C18.ProofsCmpR C18.ProofsSpecCheck C18.ProofsSpecTrace.
 Open Scope Z_scope.
 
 (** ** transport: the executable operations are Flocq's, at every precision (in particular (64, 16384)) *)
@@ -265,3 +265,32 @@ Theorem c18_spec_check_sound : forall (op : opk) (a b : Z) (o : obs), spec_check
         /\ decode64 (x_nmad (o_ext o)) = narrow (decode80 (o_mad o))
         /\ (forall (n : Z) (w : raw), In (n, w) (ext_widened o) -> decode80 w = widen (decode64 n))).
 Proof. exact spec_check_sound. Qed.
+
+(** ** straight-line programs ([Trace]): what [spec_check] accepts
+    Registers r0 = f80::from(a), r1 = f80::from(b), r(k+2) = result of step k.  If [spec_check] accepts the
+    observation of a program, then for every step the observed result is the model's operation applied to the
+    OBSERVED operand raws (arbitrary extended-format values: results of earlier steps), the observed binary64 value
+    is the narrowing of the observed result, and the observed relation code is the model's on the operands. *)
+Theorem c18_spec_trace_sound : forall (a b : Z) (wa wb : raw) (steps : list tstep),
+  spec_check (Trace a b wa wb steps) = true ->
+  decode80 wa = widen (decode64 a) /\ decode80 wb = widen (decode64 b)
+  /\ forall (k : nat) (op : top) (i j : nat) (r : raw) (n code : Z),
+       nth_error steps k = Some (TS op i j r n code) ->
+       let regs := wa :: wb :: map step_raw (firstn k steps) in
+       let U := decode80 (nth i regs (0, 0)) in
+       let V := decode80 (nth j regs (0, 0)) in
+       let R := decode80 r in
+       (i < k + 2)%nat /\ (j < k + 2)%nat /\ valid80 U /\ valid80 V
+       /\ match op with
+          | TAdd => R = add80 U V | TSub => R = sub80 U V | TMul => R = mul80 U V | TDiv => R = div80 U V
+          | TNeg => R = neg80 U | TRnd => R = widen (narrow U)
+          | TAbs => match U with
+                    | S754_nan => True
+                    | S754_zero _ => exists s : bool, R = S754_zero s
+                    | E => R = SFabs E
+                    end
+          | TMin => U <> S754_nan -> V <> S754_nan -> (R = U \/ R = V) /\ SFleb R U = true /\ SFleb R V = true
+          | TMax => U <> S754_nan -> V <> S754_nan -> (R = U \/ R = V) /\ SFleb U R = true /\ SFleb V R = true
+          end
+       /\ decode64 n = narrow R /\ code = rel_code U V.
+Proof. exact spec_check_trace_sound. Qed.
